@@ -538,6 +538,43 @@ def run(ck):
     check_runs(runs2, 2, "driver 2 (real Producer over real KafkaClient, scripted brokers) vs Model.Producer.run_case")
     check_composed(runs2, "driver 2 random fault sequences + cluster logs vs Model.ProducerCompose.run_case")
 
+    # --- 3b. a broker APPENDS and then its response is lost (RLost _ true of Model/ProducerCompose.v): the producer
+    #         retries, the log holds the messages twice, the acknowledged offset is the second copy's
+    lossy = []
+    for acks, batch, mx in itertools.product([1, -1], [False, True], [2, 3]):
+        def pol_lose_first(state={"n": 0}):
+            st = {"n": 0}
+            def pol(run, br):
+                if br.req["key"] == 0 and st["n"] == 0:
+                    st["n"] += 1
+                    return ("blose", br.rid)
+                return ("bans", br.rid, None)
+            return pol
+        r = scenario(base_cfg2(acks, batch, mx), [(0, 0), (0, 1), (1, 0), (0, 0)], pol_lose_first())
+        oc = outcomes(r)
+        dup = [tp for tp, kvs in sorted(r.cluster.log.items()) if len(kvs) != len(set(kvs))]
+        ck.hist("lossy directed scenarios")
+        if dup:
+            ck.hist("lossy directed scenarios with a duplicate in a partition log")
+        if not (all(len(oc.get(sd, [])) == 1 and oc[sd][0][0] == 1 for sd in range(4)) and dup) and not verdict(r, 2):
+            ck.violation({"kind": "composed fault sequence: unexpected outcome", "scenario": "append then lose the response, acks=%d %s max=%d" % (acks, "batched" if batch else "unbatched", mx),
+                          "what": "expected every send to succeed after the retry and the first partition log to hold the lost-response messages twice: outcomes %r, logs with duplicates %r" % (oc, dup),
+                          "theorem": "C01_composed_truthful", "driver": 2, "cfg": CL.jsonable(r.cfg),
+                          "pyevents": CL.jsonable(r.pyevents), "model_events": r.events, "impl_trace": r.trace, "replay_op": "run"})
+        lossy.append(r)
+    for _ in range(120 * scale):
+        cfg = CL.gen_cfg2(rnd)
+        cfg["profile"] = "lossy"
+        if cfg["acks"] == 0:
+            cfg["acks"] = rnd.choice([1, -1])
+        r = CL.gen_run2(rnd, cfg)
+        ck.hist("d2 profile lossy")
+        if any(len(kvs) != len(set(kvs)) for kvs in r.cluster.log.values()):
+            ck.hist("d2 lossy histories with a duplicate in a partition log")
+        lossy.append(r)
+    check_runs(lossy, 2, "driver 2 append-then-lose-the-response histories vs Model.Producer.run_case")
+    check_composed(lossy, "driver 2 append-then-lose-the-response histories + cluster logs (duplicates on retry) vs Model.ProducerCompose.run_case")
+
     # --- 4. thorough: exhaustive small scope (validation of the tie only) and coqchk
     if thorough:
         runs3 = small_scope(ck, 4)
